@@ -15,7 +15,7 @@ TRUSTED = ["modelled, not verified: Comm I/O, ACL tree evaluation around the pro
            "the 407 page and the forwarding path after AUTH_AUTHENTICATED; header parsing and base64 are tied separately (C25/C36)",
            "the harness reads Squid's own debug trace (sections 29/84) to learn when a step has been processed and which requests a helper answer resumed"]
 ASSUMPTIONS = ["Basic is the only configured scheme; casesensitive off; credentialsttl > 0; one helper process with concurrency (answers in any order); "
-               "the helper line `user password extras` fits HELPER_INPUT_BUFFER (8192; the other case is the known finding C46-overlong-credentials-left-pending); "
+               "no key_extras (the helper line is `user SP password LF`; a line that does not fit HELPER_INPUT_BUFFER is modelled: not submitted, challenged, record untouched); "
                "honest helper (its verdict is a function of the user/password line it receives); no max_user_ip, no external ACLs"]
 MANIFEST = {
     "engine": "e2e",
@@ -32,7 +32,7 @@ MANIFEST = {
             "requests each helper answer resumed and in which order, status, forwarded or not, logged user) must equal the model's, plus a direct oracle: "
             "forwarded => own credentials valid, invalid => 407 with a Basic challenge, logged user = own user name, origin body = own tag.",
     "note": "trusted: Lean kernel, python rig (origin, clients, helper relay), loopback sockets, Squid's debug trace as the step hand-shake; not modelled: "
-            "other schemes and connection-oriented authentication, max_user_ip, external ACL/annotation plumbing, helper overload/timeouts, over-long credentials",
+            "other schemes and connection-oriented authentication, max_user_ip, external ACL/annotation plumbing, helper overload/timeouts",
     "technique": "Lean 4 invariant over event histories of the authentication state machine + end-to-end scripted-schedule correspondence with the rebuilt squid",
 }
 MINIMISE_BUDGET = 24
@@ -461,7 +461,7 @@ def race_region(line, impl):
 
 
 def overlong(hdr):
-    """the helper line `user password extras` cannot fit HELPER_INPUT_BUFFER (outside the model: ASSUMPTIONS)"""
+    """the helper line `user password` cannot fit HELPER_INPUT_BUFFER (signature of the repaired finding C46-overlong-credentials-left-pending)"""
     cr = lenient_creds(hdr)
     return cr is not None and len(cr[0]) + len(cr[1]) >= 8000
 
